@@ -18,7 +18,8 @@ def load(ids):
     ms = []
     for f in sorted(glob.glob(os.path.join(VERIF, "mutants", "*.json"))):
         for m in json.load(open(f)):
-            if not ids or m["id"] in ids or m["property"] in ids:
+            props = m["property"] if isinstance(m["property"], list) else [m["property"]]
+            if not ids or m["id"] in ids or any(p in ids for p in props):
                 ms.append(m)
     return ms
 
@@ -39,10 +40,16 @@ def run_one(m, mode):
             b = subprocess.run(["go", "build", "./..."], cwd=repo, env=ENV, capture_output=True, text=True)
             if b.returncode != 0:
                 res.update(status="does-not-build", detail=b.stderr[-400:]); return res
-            t = subprocess.run(["go", "test", "-count=1", "./..."], cwd=repo, env=ENV, capture_output=True, text=True)
-            res["tests_pass"] = t.returncode == 0
-            if t.returncode != 0:
-                res["test_tail"] = t.stdout[-300:]
+            if m.get("notest"):
+                res["tests_pass"] = None
+            else:
+                try:
+                    t = subprocess.run(["go", "test", "-count=1", "-timeout", "60s", "./..."], cwd=repo, env=ENV, capture_output=True, text=True, timeout=120)
+                    res["tests_pass"] = t.returncode == 0
+                    if t.returncode != 0:
+                        res["test_tail"] = t.stdout[-300:]
+                except subprocess.TimeoutExpired:
+                    res["tests_pass"] = False
         v = os.path.join(d, "verif"); os.makedirs(v)
         shutil.copytree(os.path.join(VERIF, "rules"), os.path.join(v, "rules"))
         shutil.copy(os.path.join(VERIF, "known_findings.json"), v)
@@ -82,14 +89,14 @@ def main():
     bad = 0
     for r in results:
         extra = ""
-        if "tests_pass" in r and not r["tests_pass"]:
+        if "tests_pass" in r and r["tests_pass"] is False:
             extra = " [unit tests FAIL with this mutant]"
         print("%-34s %-14s %s%s" % (r["id"], r["status"], ",".join(r.get("rules_hit", [])), extra))
         if r["status"] not in ("ok", "ok-other-rule", "not-applicable"):
             bad += 1
             print("    " + (r.get("detail") or "").replace("\n", "\n    ")[-1500:])
     print("mutants: %d, problems: %d" % (len(results), bad))
-    json.dump(results, open(os.path.join(VERIF, "mutants", "last_run.json"), "w"), indent=1)
+    json.dump(results, open(os.path.join(VERIF, "mutants", "last_run.out"), "w"), indent=1)
     sys.exit(1 if bad else 0)
 
 main()
